@@ -1702,6 +1702,11 @@ impl UnifiedCommandExecutor {
             }
             
             BitCommand::SetBit { key, offset, value } => {
+                // a string holds at most 512 MB, so the highest bit offset is 2^32 - 1
+                if offset >= (1usize << 32) {
+                    return Err(FerrousError::Command(CommandError::Generic(
+                        "bit offset is not an integer or out of range".to_string())));
+                }
                 let byte_offset = offset / 8;
                 let bit_offset = offset % 8;
                 
